@@ -795,17 +795,61 @@ func (t *tokenizer) readEscapedChar(isClob bool) (rune, error) {
 		if isClob {
 			return 0, t.invalidChar('U')
 		}
-		return t.readHexEscapeSeq(8)
+		r, err := t.readHexEscapeSeq(8)
+		if err != nil {
+			return 0, err
+		}
+		if r < 0 || r > utf8.MaxRune || isSurrogate(r) {
+			return 0, &SyntaxError{fmt.Sprintf("escape \\U%08X is not a Unicode scalar value", uint32(r)), t.pos - 10}
+		}
+		return r, nil
 	case 'u':
 		if isClob {
 			return 0, t.invalidChar('u')
 		}
-		return t.readHexEscapeSeq(4)
+		r, err := t.readHexEscapeSeq(4)
+		if err != nil {
+			return 0, err
+		}
+		if isSurrogate(r) {
+			return t.readSurrogatePair(r)
+		}
+		return r, nil
 	case 'x':
 		return t.readHexEscapeSeq(2)
 	}
 
 	return 0, &SyntaxError{fmt.Sprintf("bad escape sequence '\\%c'", c), t.pos - 2}
+}
+
+// isSurrogate returns true if r is a UTF-16 surrogate code point.
+func isSurrogate(r rune) bool {
+	return r >= 0xD800 && r <= 0xDFFF
+}
+
+// readSurrogatePair is called after a \uXXXX escape that named the surrogate
+// code point hi. A high surrogate followed by an escaped low surrogate stands
+// for one supplementary character; any other use of a surrogate is an error.
+func (t *tokenizer) readSurrogatePair(hi rune) (rune, error) {
+	if hi >= 0xDC00 {
+		return 0, &SyntaxError{fmt.Sprintf("escape \\u%04X is a low surrogate without a high surrogate", hi), t.pos - 6}
+	}
+
+	if err := t.expect(func(c int) bool { return c == '\\' }); err != nil {
+		return 0, err
+	}
+	if err := t.expect(func(c int) bool { return c == 'u' }); err != nil {
+		return 0, err
+	}
+	lo, err := t.readHexEscapeSeq(4)
+	if err != nil {
+		return 0, err
+	}
+	if lo < 0xDC00 || lo > 0xDFFF {
+		return 0, &SyntaxError{fmt.Sprintf("escape \\u%04X is a high surrogate without a low surrogate", hi), t.pos - 12}
+	}
+
+	return 0x10000 + (hi-0xD800)<<10 + (lo - 0xDC00), nil
 }
 
 func (t *tokenizer) readHexEscapeSeq(length int) (rune, error) {
